@@ -18,6 +18,7 @@ package xhttp
 
 import (
 	"fmt"
+	"io"
 	"net/http"
 
 	"github.com/go-netty/go-netty"
@@ -57,8 +58,14 @@ func (h *handlerAdapter) HandleRead(ctx netty.InboundContext, message netty.Mess
 	case *http.Request:
 		// create a response writer
 		writer := NewResponseWriter(r, ctx.Channel().Writer())
-		// flush response
-		defer writer.Flush()
+		// finish the response (Flush alone only sends what is buffered so far)
+		defer func() {
+			if closer, ok := writer.(io.Closer); ok {
+				_ = closer.Close()
+			} else {
+				writer.Flush()
+			}
+		}()
 		// serve the http request
 		h.handler.ServeHTTP(writer, r)
 	default:
